@@ -13,7 +13,7 @@ CONSTANTS
   Svc = {"A", "B"}
   Dst = {"http://u1:80/", "http://u2:80/"}
   Srcs <- %(srcs)s
-  W <- MCW
+  W <- %(w)s
   TagSeqs <- MCTagSeqs
   OptSet <- %(opts)s
   MaxCmds = %(n)d
@@ -26,7 +26,7 @@ INV = "INVARIANTS TypeOK NoEmptyRoute AddIdempotent AddAccumulates DelExact Weig
 
 def cfg(spec, srcs, opts, n, view=True, inv=False):
     return BASE % dict(spec=spec, srcs=srcs, opts=opts, n=n, view="VIEW View" if view else "",
-                       inv=INV if inv else "")
+                       inv=INV if inv else "", w="MCW" if srcs == "MCSrcsSmall" else "MCWFull")
 
 
 def run_harness(ctx, cases, what, env=None, timeout=900):
@@ -42,7 +42,7 @@ def run_harness(ctx, cases, what, env=None, timeout=900):
 def run(ctx):
     ctx.level = "model_checking"
     ctx.assumptions += [
-        "universe: services {A,B}, sources {/, h.com/, H.com/, h.com/a, H.COM/a, h.com/A, :1234}, 2 destinations, weights {dynamic, 0.2, 0.5}, tag lists {none, t1, t1+t2}, opts {none, strip=/x}",
+        "universe: services {A,B}, sources {/, h.com/, H.com/, h.com/a, H.COM/a, h.com/A, :1234}, 2 destinations, weights {dynamic, 0.2, 0.5, -0.5 (= dynamic)}, tag lists {none, t1, t1+t2}, opts {none, strip=/x}",
         "fixed weights compared with exact rationals to 1e-9; a zero-weight target omitted by the rendering is not a difference (unobservable by lookups)",
     ]
     # 1. the language properties on the model
@@ -55,7 +55,7 @@ def run(ctx):
 
     # 2. case generation: every examined transition + seeded random behaviours
     cases = os.path.join(ctx.tmp, "c05.cases")
-    g = ctx.tlc("RouteLang_MC", cfg_text=cfg("GenSpec", "MCSrcsFull", "MCOptsFull", 2), json_sink=cases, timeout=900)
+    g = ctx.tlc("RouteLang_MC", cfg_text=cfg("GenSpec", ctx.pick("MCSrcsMid", "MCSrcsFull"), "MCOptsFull", 2), json_sink=cases, timeout=900)
     ctx.log("Gen(full universe, <=2 cmds): %d transitions, %.0fs" % (g.generated, g.wall))
     if not ctx.need_tlc_ok(g, "RouteLang Gen"):
         return
